@@ -253,22 +253,26 @@ class ValueEqualitySpec(FunctionSpec):
 
     KINDS = ("scalar", "array", "fixedarray")
     OTHERS = ("none", "int", "str", "tuple", "quantity")
+    CONTAINERS = {"array": "list", "array:tuple": "tuple", "array:ndarray": "numpy.ndarray", "fixedarray:ndarray": "numpy.ndarray"}
 
     def variants(self, tier):
         out = []
         for a in self.KINDS:
             for b in self.KINDS + self.OTHERS:
                 out.append((a, b))
+        # container kinds of the values (equal or different lengths are both inside each variant)
+        for a, b in (("array:ndarray", "array:ndarray"), ("array:ndarray", "array"), ("array", "array:ndarray"), ("array:tuple", "array:tuple"), ("array:tuple", "array"), ("array:ndarray", "array:tuple"), ("fixedarray:ndarray", "fixedarray:ndarray"), ("array:ndarray", "fixedarray:ndarray"), ("array:ndarray", "none"), ("array:ndarray", "str")):
+            out.append((a, b))
         return out
 
     def make(self, I, db, R, kind, tag):
         q = mk_q(I, R, db, "simple", tag)
         if kind == "scalar":
             return scalar_obj(I, db, q, tag=tag)
-        if kind == "array":
-            return array_obj(I, db, q, symseq.fresh_seq(I.P, "list", base=tag + "_vals"), tag=tag)
-        if kind == "fixedarray":
-            return fixed_array(I, db, q, "list", tag=tag)
+        if kind.startswith("array"):
+            return array_obj(I, db, q, symseq.fresh_seq(I.P, self.CONTAINERS[kind], base=tag + "_vals"), tag=tag)
+        if kind.startswith("fixedarray"):
+            return fixed_array(I, db, q, "ndarray" if kind.endswith("ndarray") else "list", tag=tag)
         if kind == "quantity":
             return q
         return {"none": SNone, "int": SNum(z3.Int(tag + "_i"), "int"), "str": nm(tag + "_text"), "tuple": STuple([SNum(z3.Real(tag + "_x"), "float"), nm(tag + "_u")])}[kind]
@@ -293,7 +297,8 @@ class ValueEqualitySpec(FunctionSpec):
                 return F
             e1, e2, n1, n2, r = [to_z3b(x.t) for x in res.items]
             conj = [e1 == e2, n1 == z3.Not(e1), n2 == z3.Not(e2), r]
-            if ka != kb:
+            ca, cb = ka.split(":")[0], kb.split(":")[0]
+            if ca != cb:
                 conj.append(z3.Not(e1))  # objects of different classes are never equal
             else:
                 fa, fb = a.o.fields, b.o.fields
@@ -304,7 +309,7 @@ class ValueEqualitySpec(FunctionSpec):
                     va, vb = fa["_value"], fb["_value"]
                     j = z3.Int("j!eq")
                     same = z3.And(va.n == vb.n, z3.ForAll([j], z3.Implies(z3.And(j >= 0, j < va.n), S(va.elems, j) == S(vb.elems, j))), qeq)
-                    if ka == "fixedarray":
+                    if ca == "fixedarray":
                         same = z3.And(same, fa["_dimension"].t == fb["_dimension"].t)
                 conj.append(e1 == same)
             return And(conj)
